@@ -380,6 +380,7 @@ FINDINGS = [
     ("C01-parameter-stmt-literal-placeholder", "parameter-stmt-literal", r"\.initial:"),
     ("C01-parameter-stmt-relational", "parameter-stmt-relational", r"\.initial:"),
     ("C01-function-type-prefix-literal-crash", "function-prefix-literal", r"FORD failed on valid input: IndexError"),
+    ("C01-procedure-prefix-substring", "function-prefix-word-in-identifier", r"\.attribs:|\.retvar\.(proto|kind|vartype|strlen):"),
 ]
 
 
@@ -402,12 +403,25 @@ def file_features(text):
         feats.add("parameter-stmt-relational")
     if re.search(r"^[^!\n]*['\"][^\n]*\bfunction\s+\w+\s*\(", low, re.M):
         feats.add("function-prefix-literal")
+    # a function statement whose type prefix names, inside parentheses, an identifier that contains one of the
+    # procedure prefix words (type(module_data) function f(), real(kind=pure_kind) function g())
+    if re.search(r"^[^!\n]*\([^)\n]*(impure|pure|elemental|non_recursive|recursive|module)[^\n]*\)[^\n]*\bfunction\s+\w+", low, re.M):
+        feats.add("function-prefix-word-in-identifier")
     return feats
 
 
-def classify(why, feats):
+PREFIX_WORD_FUNCTION = re.compile(r"^[^!\n]*\([^)\n]*(?:impure|pure|elemental|non_recursive|recursive|module)[^\n]*\)[^\n]*\bfunction\s+(\w+)", re.M)
+
+
+def classify(why, feats, text=None):
     for fid, feat, rx in FINDINGS:
         if feat in feats and re.search(rx, why):
+            if feat == "function-prefix-word-in-identifier":
+                # the difference must be on one of the functions whose statement has the feature
+                low = re.sub(r"&[ \t]*(![^\n]*)?\n([ \t]*(![^\n]*)?\n)*[ \t]*&?", "", (text or "").lower())
+                names = set(PREFIX_WORD_FUNCTION.findall(low))
+                if not any(re.search(r"\[%s\]\.(attribs:|retvar\.)" % re.escape(n), why) for n in names):
+                    continue
             return fid
     return None
 
@@ -499,7 +513,7 @@ def run(tier: str, seed: int, replay: str | None = None) -> int:
                 if why is not None:
                     n_fail += 1
                     rep.failing_input({"stream": "tree", "project_index": k, "file": fn, "why": why,
-                                       "features": sorted(feats), "text": text}, classify(why, feats))
+                                       "features": sorted(feats), "text": text}, classify(why, feats, text))
         # ---------------- ptype stream: parse_type vs FordModel/TypeSpec.lean + spelling oracle
         from harness import c01_ptype
         pt = c01_ptype.run_stream(drv, ford, random.Random(seed * 424243 + 5),
@@ -518,9 +532,17 @@ def run(tier: str, seed: int, replay: str | None = None) -> int:
         aq = c01_attrs.run_attrq(ford, random.Random(seed * 919191 + 19), 500 if tier == "quick" else 10000, rep, d, distinct)
         n_dis += at["disagree"]
         n_fail += aq["oracle_fail"]
+        # ---------------- typere / typestmt / typeq streams (FordModel/TypeHead.lean): the statement that opens a derived type
+        from harness import c01_thead
+        tr_ = c01_thead.run_typere(drv, ford, random.Random(seed * 232323 + 23), 4000 if tier == "quick" else 80000, rep, distinct)
+        ts_ = c01_thead.run_typestmt(drv, ford, random.Random(seed * 292929 + 29), 1500 if tier == "quick" else 30000, rep, d, distinct)
+        tq_ = c01_thead.run_typeq(ford, random.Random(seed * 313131 + 31), 300 if tier == "quick" else 6000, rep, d, distinct)
+        vr_ = c01_thead.run_varre(drv, ford, random.Random(seed * 373737 + 37), 3000 if tier == "quick" else 60000, rep, d, distinct)
+        n_dis += tr_["disagree"] + ts_["disagree"] + vr_["disagree"]
+        n_fail += tq_["oracle_fail"]
     rep.coverage.update(
         evaluations=len(cases) + n_files + pt["cases"] + pt["groups"] + mk["cases"] + rs["cases"] + lt["cases"] + at["cases"]
-        + aq["spellings"],
+        + aq["spellings"] + tr_["cases"] + ts_["cases"] + tq_["spellings"] + vr_["cases"],
         distinct_nontrivial=len(distinct),
         rule="struct: statement-kind sequences (well-formed nestings, 1-3 point mutations of them, junk), distinct by token "
              "sequence; tree: generated abstract projects x random spellings, one evaluation per source file, distinct by text; "
@@ -529,10 +551,17 @@ def run(tier: str, seed: int, replay: str | None = None) -> int:
              "(mask, restore and lits cases are distinct by their text / text+strings); attrs: specification parts of 1-4 declaration "
              "statements (1-3 entities, 0-3 attribute texts) and 0-6 attribute statements in a module / program / subroutine / function / "
              "block data unit; attrq: abstract entity lists written in two spellings (shared declarations + attribute statements, one "
-             "declaration per entity), one evaluation per spelling (both distinct by text)",
+             "declaration per entity), one evaluation per spelling (both distinct by text); typere / varre: one statement per case (type "
+             "definitions in both spellings, SELECT TYPE guards, declarations, their 1-2 point mutations, junk; identifiers dense in "
+             "keyword prefixes), typestmt: the same statements inside a module (distinct by text + inherited permission), typeq: abstract "
+             "derived types with keyword-like names in two spellings, one evaluation per spelling",
         samples=samples,
         traces_validated_against_impl=len(cases) + pt["cases"] - pt["unmodelled"] + mk["cases"] - mk["unmodelled"]
-        + rs["cases"] - rs["unmodelled"] + at["cases"],
+        + rs["cases"] - rs["unmodelled"] + at["cases"] + tr_["cases"] - tr_["unmodelled"] + ts_["cases"] - ts_["unmodelled"] + vr_["cases"] - vr_["unmodelled"],
+        varre_stream=vr_,
+        typere_stream=tr_,
+        typestmt_stream=ts_,
+        typeq_stream=tq_,
         ptype_stream=pt,
         attrs_stream=at,
         attrq_stream=aq,
@@ -561,5 +590,12 @@ def run(tier: str, seed: int, replay: str | None = None) -> int:
         "differential run only); attribute statements naming procedures, types or interfaces (first loop of process_attribs), bare "
         "PUBLIC/PRIVATE statements, character literals inside bind(..) and the settings.warn report are outside the model; the variant "
         "of the four repairable places (Attribs.Cfg) is decided by probing the real code once per run",
+        "the statement that opens a derived type is modelled at character level (TypeHead.lean: TYPE_RE, FortranType._initialize, SPLIT_RE, "
+        "EXTENDS_RE, VARIABLE_STRING without extra_vartypes) for printable ASCII and TAB (anything else is answered `unmodelled`: Python's "
+        "\\s, \\w and case folding know more characters); `SPLIT_RE.split(x.strip())` is mirrored as one step (split at commas, strip every "
+        "piece); in the typestmt stream statements that contain a comment / continuation / separator / quote character or a word an earlier "
+        "branch of the cascade may take (function, subroutine, namelist, procedure, block, associate, format) are not observable and skipped "
+        "(counted); the other head patterns of the cascade (MODULE_RE, SUBROUTINE_RE, FUNCTION_RE, INTERFACE_RE, ...) have no character-level "
+        "model: identifiers that begin with keywords reach them through the tree / typeq oracles only",
     ]
     return rep.finish(lean)
